@@ -291,10 +291,36 @@ def _build_call(case):
     raise fw.HarnessError('unknown case kind %r' % (case,))
 
 
-def execute(case):
+def warm_up():
+    """a suite of VALID calls (every class, both complex-step methods, real-step methods, the documented n)
+    executed from the pristine state; the misuse cases are then repeated in this used state"""
+    import numdifftools as nd
+    from numdifftools import fornberg as ndf
+    from numdifftools.limits import Limit, Residue
+    x2 = np.array([0.7, 0.8])
+    with warnings.catch_warnings():
+        warnings.simplefilter('ignore')
+        with np.errstate(all='ignore'):
+            for method, ns in (('multicomplex', (1, 2)), ('complex', (1, 2, 3, 4, 5, 6)), ('central', (1, 2, 3)),
+                               ('forward', (1, 2)), ('backward', (1, 2))):
+                for n in ns:
+                    for order in (2, 4):
+                        nd.Derivative(_elementwise, method=method, n=n, order=order)(0.7)
+                        nd.Derivative(_elementwise, method=method, n=n, order=order, full_output=True)(x2)
+                for cls in ('Gradient', 'Jacobian', 'Hessdiag', 'Hessian'):
+                    f = _vector_of_vector if cls == 'Jacobian' else _scalar_of_vector
+                    getattr(nd, cls)(f, method=method)(x2)
+            ndf.fd_weights_all(np.arange(-2., 3.), 0.0, 3)
+            ndf.fd_derivative(np.arange(8.) ** 2, np.arange(8.), 2, 1)
+            Limit(lambda z: np.sin(z) / z)(0.0)
+            Residue(lambda z: 1 / np.expm1(z), pole_order=1)(0.0)
+            nd.directionaldiff(_scalar_of_vector, x2, [1.0, 2.0])
+
+
+def execute(case, fresh=True):
     """-> (status, text): status is 'ValueError', 'returned-value' or 'raised-<Type>'."""
-    from numdifftools.finite_difference import FD_RULES
-    fw.fresh_library_state()
+    if fresh:
+        fw.fresh_library_state()
     call = _build_call(case)
     try:
         with warnings.catch_warnings():
@@ -395,8 +421,10 @@ def case_id(case):
 
 def work(chunk):
     acc = fw.Acc()
-    for case in chunk:
+    pristine_ok = {}
+    for ci, case in enumerate(chunk):
         status, text = execute(case)
+        pristine_ok[ci] = status == 'ValueError'
         kind = case['kind']
         if kind == 'control':
             # valid use: observed only (not part of the property)
@@ -414,6 +442,23 @@ def work(chunk):
             key = 'C11:%s:%s:%s' % (entry_point(case), status, condition(case))
             acc.violation(key, case, '%s -> %s (expected ValueError)' % (describe(case), text),
                           rank=rank_of(case))
+    # second pass (E2, histories [valid use ...; misuse]): the same misuse cases after a suite of valid calls,
+    # without restoring the library state in between - a guard that is skipped on a cache hit shows here
+    fw.fresh_library_state()
+    warm_up()
+    for ci, case in enumerate(chunk):
+        if case['kind'] in ('control', 'fdd-stencil') or not pristine_ok[ci]:
+            continue        # (a case that already fails from the pristine state is reported there)
+        status, text = execute(case, fresh=False)
+        acc.case(('after-valid-use',) + tuple(case_id(case)) if isinstance(case_id(case), tuple) else ('after-valid-use', case_id(case)),
+                 nontrivial=True, cell='after-valid-use/' + case['kind'], outcome=(case['kind'], status))
+        if status != 'ValueError':
+            c2 = dict(case)
+            c2['after_valid_use'] = True
+            acc.violation('C11:%s:%s:%s:after-valid-use' % (entry_point(case), status, condition(case)), c2,
+                          'after a suite of valid calls: %s -> %s (expected ValueError)' % (describe(case), text),
+                          rank=rank_of(case) + 1)
+    fw.fresh_library_state()
     return acc
 
 
@@ -616,6 +661,13 @@ def run(ctx):
 
 
 def replay(case):
+    if case.get('after_valid_use'):
+        c = {k: v for k, v in case.items() if k != 'after_valid_use'}
+        fw.fresh_library_state()
+        warm_up()
+        status, text = execute(c, fresh=False)
+        fw.fresh_library_state()
+        return status == 'ValueError', 'after valid use: %s -> %s (expected ValueError)' % (describe(c), text)
     status, text = execute(case)
     ok = status == 'ValueError' or case.get('kind') in ('control', 'fdd-stencil')
     return ok, '%s -> %s (expected ValueError)' % (describe(case), text)
